@@ -72,6 +72,13 @@ func c17CheckIP(kind string, ip net.IP, port int, zone string) *c17viol {
 	if sa == nil || back == nil {
 		return &c17viol{"conv:nil", "conversion of the valid address " + desc + " yields nil"}
 	}
+	// an IPv4 address (in its 4-byte or its 16-byte spelling) without zone is an AF_INET address: as
+	// a v4-mapped AF_INET6 address the kernel refuses it on an IPv4 socket (EAFNOSUPPORT)
+	if ip.To4() != nil && zone == "" {
+		if _, ok := sa.(*unix.SockaddrInet4); !ok {
+			return &c17viol{"conv:family", fmt.Sprintf("the IPv4 address %s (IP of %d bytes) converts to %T, not to an AF_INET socket address", desc, len(ip), sa)}
+		}
+	}
 	var bip net.IP
 	var bport int
 	var bzone string
